@@ -96,7 +96,7 @@ var registry = map[string]check{
 	"C01": {
 		parts: []part{{"compiled", layerc.C01, 16, 160}}, replay: layerc.Replay, level: "exploration", components: compC,
 		rule:        "cases = (generator from the control-flow profile: blocks, if/else-if chains, expression/type/tag-less switches, three-clause/condition-only/infinite loops with yielding init/post, break/continue/return at any depth, nested generator literals) x up to 36 argument vectors x a full drain (infinite generators: 64 elements); oracle: the projection of the history onto delivered values and the position of the first false advance equals the reference coroutine's." + ruleC,
-		assumptions: []string{"fault-free full-drain projection of the C02 simulation: this property has no schedule dimension of its own (DESIGN.md 4 C01)", "known findings A1/A2 are quarantined from random generation and run as pinned cases"},
+		assumptions: []string{"fault-free full-drain projection of the C02 simulation: this property has no schedule dimension of its own (DESIGN.md 4 C01)"},
 	},
 	"C02": {
 		parts: []part{{"compiled", layerc.C02, 16, 160}}, replay: layerc.Replay, level: "exploration", components: compC,
